@@ -422,6 +422,9 @@ type c17Client struct {
 	// session; "raw" = the listener speaks TLS and the chunks are written to the bare TCP connection (a peer that
 	// never completes, or garbles, the TLS handshake)
 	TLS string `json:"tls,omitempty"`
+	// Flood > 0: after the chunks the client pipelines that many valid forwarded queries without ever reading an
+	// answer (the proxy's write queue towards it fills up) and then disappears
+	Flood int `json:"flood,omitempty"`
 }
 
 var (
@@ -519,6 +522,33 @@ func c17ClientCheck(c c17Client) *evid.Fail {
 			time.Sleep(time.Duration(ch.Pause) * time.Millisecond)
 		}
 	}
+	if c.Flood > 0 && c.TLS != "raw" {
+		ver := primitive.ProtocolVersion(4)
+		if c.MaxVersion < 4 {
+			ver = 3
+		}
+		cl.PauseReads()
+		v.cl.SetEchoPad(32 << 10) // big answers: the socket buffers and the proxy's 1024-entry write queue overflow
+		defer v.cl.SetEchoPad(0)
+		var buf []byte
+		for i := 0; i < c.Flood; i++ {
+			f, err := wire.Msg(ver, false, int16(i%30000), &message.Query{Query: "SELECT * FROM ks1.flood WHERE k = '" + nextToken() + "' AND pad = '" + strings.Repeat("p", 200) + "'", Options: &message.QueryOptions{Consistency: primitive.ConsistencyLevelOne}}, "")
+			if err != nil {
+				break
+			}
+			buf = append(buf, f.Bytes()...)
+			if len(buf) > 1<<20 {
+				_ = cl.Send(buf)
+				buf = buf[:0]
+			}
+		}
+		_ = cl.Send(buf)
+		time.Sleep(150 * time.Millisecond) // let the answers pile up behind the socket that nobody reads
+		v.cl.SetEchoPad(0)
+		notes = append(notes, fmt.Sprintf("%d pipelined queries whose answers are never read", c.Flood))
+		cl.Close()
+		cl.ResumeReads()
+	}
 	switch c.End {
 	case "close":
 		cl.Close()
@@ -533,12 +563,35 @@ func c17ClientCheck(c c17Client) *evid.Fail {
 	return f
 }
 
-var c17Hostile = []string{`"`, `""`, `"a`, `'`, `''`, "\x00", "\xff\xfe", "a\"b", `"""`, " ", "", "system", `"system"`, "sys\x00tem", strings.Repeat("x", 70000), strings.Repeat(`"`, 300),
+var c17Hostile = []string{"SELECT * FROM t /* c */ WHERE a = $$", "-- $$", "/* */ $$", "// x\n$$", "/*", "$$", "SELECT * FROM system.local -- $$ x $$", `"`, `""`, `"a`, `'`, `''`, "\x00", "\xff\xfe", "a\"b", `"""`, " ", "", "system", `"system"`, "sys\x00tem", strings.Repeat("x", 70000), strings.Repeat(`"`, 300),
 	"SELECT * FROM system.local", "SELECT count() FROM system.local", "SELECT count( FROM system.peers", "SELECT now(x) FROM system.local", "SELECT * FROM system.", "SELECT FROM", "SELECT key AS FROM system.local",
 	"SELECT count(*) AS FROM system.peers", "SELECT , FROM system.local", "SELECT a.b.c FROM system.local", "USE", "USE ;", "SELECT * FROM system.local WHERE", "; DROP",
 	"INSERT INTO ks1.t (a) VALUES (" + strings.Repeat("[", 3<<20), "UPDATE ks1.t SET a = " + strings.Repeat("{", 2<<20), "DELETE FROM ks1.t WHERE a = " + strings.Repeat("(", 3<<20), "INSERT INTO ks1.t (a) VALUES (" + strings.Repeat("f(", 1<<20), "\n", "\"\x00\"", "é", strings.Repeat("(", 5000), strings.Repeat("[", 5000), "USE \"", "`", "$$", "-", "0x"}
 
+// fragments that open something a scanner has to close (comments, string and identifier quotes, $$ strings)
+var c17Fragments = []string{"/*", "*/", "--", "//", "$$", "$", "'", "''", "\"", "\n", "\r", " ", ";", "SELECT", "* FROM system.local", "FROM t", "WHERE a =", "x", "é", "\x00", "(", "{", "["}
+
 func hostile(rt *rapid.T, label string) string {
+	if rapid.IntRange(0, 3).Draw(rt, label+"-kind") == 0 {
+		n := rapid.IntRange(1, 8).Draw(rt, label+"-n")
+		var sb strings.Builder
+		for i := 0; i < n; i++ {
+			sb.WriteString(c17Fragments[rapid.IntRange(0, len(c17Fragments)-1).Draw(rt, label+"-frag")])
+			if rapid.Bool().Draw(rt, label+"-sp") {
+				sb.WriteString(" ")
+			}
+		}
+		out := strings.TrimRight(sb.String(), " ")
+		switch rapid.IntRange(0, 5).Draw(rt, label+"-tail") {
+		case 0:
+			out = "/* c */ " + out + " $$" // an opening $$ as the very last bytes, behind a comment
+		case 1:
+			out = out + " -- " + "$$"
+		case 2:
+			out = "$$" + out
+		}
+		return out
+	}
 	return c17Hostile[rapid.IntRange(0, len(c17Hostile)-1).Draw(rt, label)]
 }
 
@@ -710,6 +763,9 @@ func c17GenClient(rt *rapid.T) c17Client {
 		}
 		c.Chunks = append(c.Chunks, c17Chunk{Hex: hex.EncodeToString(raw), Note: note, Pause: rapid.SampledFrom([]int{0, 0, 0, 2}).Draw(rt, "pause")})
 	}
+	if c.Startup != "-" && rapid.IntRange(0, 69).Draw(rt, "flood") == 0 {
+		c.Flood = rapid.IntRange(1400, 2600).Draw(rt, "floodn")
+	}
 	switch rapid.IntRange(0, 11).Draw(rt, "tls") {
 	case 0: // the same hostile frames, inside a TLS session
 		c.TLS = "inner"
@@ -843,9 +899,10 @@ func c17GenBackend(rt *rapid.T) c17Backend {
 	case 3:
 		c.Outcome, c.Note = fakecass.Outcome{Kind: "rawframe", RawVersion: 4, RawOp: 8, RawBody: "00000001", Then: then}, "a frame with the request direction bit"
 	case 4:
-		n := rapid.IntRange(0, 7).Draw(rt, "errlen")
+		n := rapid.IntRange(0, 18).Draw(rt, "errlen")
 		code := rapid.SampledFrom([]int32{0x2500, 0x1100, 0x1000, 0, 0x2200}).Draw(rt, "errcode")
-		c.Outcome, c.Note = fakecass.Outcome{Kind: "rawframe", RawOp: 0, RawBody: errBody(code, n), Then: then}, fmt.Sprintf("an ERROR (code %#x) whose body has %d bytes", code, n)
+		flags := rapid.SampledFrom([]int{0, 0, 0x02, 0x08, 0x04, 0x0a, 0x0e}).Draw(rt, "errflags") // tracing / warning / payload announced, body too short for them
+		c.Outcome, c.Note = fakecass.Outcome{Kind: "rawframe", RawOp: 0, RawFlags: flags, RawBody: errBody(code, n), Then: then}, fmt.Sprintf("an ERROR (code %#x, flags %#x) whose body has %d bytes", code, flags, n)
 	case 5:
 		if rapid.Bool().Draw(rt, "cachedid") {
 			c.Outcome, c.Note = fakecass.Outcome{Kind: "unprepared", UnpreparedID: "cached"}, "UNPREPARED naming a cached id"
@@ -915,6 +972,9 @@ func TestC17(t *testing.T) {
 		labels := []string{"max:" + protogen.VersionName(primitive.ProtocolVersion(c.MaxVersion)), "end:" + c.End, map[bool]string{true: "victim:cql-proxy", false: "victim:proxyhost"}[c.Real || c.TLS != ""]}
 		if c.TLS != "" {
 			labels = append(labels, "tls-listener:"+c.TLS)
+		}
+		if c.Flood > 0 {
+			labels = append(labels, "flood-and-vanish")
 		}
 		key := ""
 		for _, ch := range c.Chunks {
